@@ -8,7 +8,7 @@ from props import c18
 
 def run(res, args):
     res.rule = ("the real appcore.HandleMessagesUntilEOF (file handler -> RTCM handler -> fan-out) under the race detector with a "
-                "scripted reader (chunkings from 1 byte to whole stream, last bytes delivered with EOF, silences of 0.7 s after a stray byte / inside text / inside a frame), 1-4 sinks of capacity 0/1/8 with fast and slow "
+                "scripted reader (chunkings from 1 byte to whole stream, last bytes delivered with EOF, silences of 0.7 s and 1.6 s after a stray byte / inside text / inside a frame, sources with a 400 ms EOF tolerance interrupted three times), 1-4 sinks of capacity 0/1/8 with fast and slow "
                 "consumers, consumers that stay away for 2.5 s, nil entries (also in front of live ones), GOMAXPROCS 1/2/4/16, the same AppCore used for one source or for two in a row (the caller then closes its channels); every non-nil sink must receive exactly the (type, raw) "
                 "sequence of sequential framing; the call must return 0, no goroutine may be left, no double close, no data race; "
                 "non-trivial = at least two messages and two sinks")
@@ -76,9 +76,24 @@ def run(res, args):
             cut = rng.randint(1, len(fr) - 1)
             parts = [text + fr[:cut], fr[cut:] + text]
         s = b"".join(parts)
-        script = "d:%s;sleep:700;d:%s" % (parts[0].hex(), parts[1].hex())
-        res.count("silence of 0.7 s " + ["after one stray byte", "inside text", "inside a frame"][kind])
+        dur = 700 if k % 2 == 0 else 1600
+        script = "d:%s;sleep:%d;d:%s" % (parts[0].hex(), dur, parts[1].hex())
+        res.count("silence of %.1f s " % (dur / 1000.0) + ["after one stray byte", "inside text", "inside a frame"][kind])
         items.append((s, "pipeline %s %s %d 0" % (script, rng.choice(["0", "8", "1,0s", "8,nil,1"]), rng.choice([1, 4]))))
+    # a source with a non-zero EOF tolerance that is interrupted more than once (single and double end-of-file / timeout
+    # results, data in between, also inside frames): every interruption is waited out, all consumers get the whole stream
+    for k in range(6 if res.tier == "quick" else 40):
+        fr = [gen.rand_frame(rng, small=True) for _ in range(rng.randint(3, 5))]
+        s = b"".join(fr)
+        cuts = sorted(rng.sample(range(1, len(s)), 3))
+        pieces = [s[:cuts[0]], s[cuts[0]:cuts[1]], s[cuts[1]:cuts[2]], s[cuts[2]:]]
+        steps = []
+        for i, pc in enumerate(pieces):
+            steps.append("d:" + pc.hex())
+            if i < len(pieces) - 1:
+                steps += [rng.choice(["eof", "timeout"]) for _ in range([2, 2, 1][(i + k) % 3])]
+        res.count("EOF tolerance 400 ms, three interruptions (double, double, single in some order)")
+        items.append((s, "pipeline %s %s %d 400" % (";".join(steps), rng.choice(["0", "1,0s", "8,nil,0"]), rng.choice([1, 4]))))
     # a consumer that stays away from its channel for 2.5 s (a writer stuck in a slow Write): the fan-out must wait
     for k in range(2 if res.tier == "quick" else 8):
         fr = [gen.rand_frame(rng, small=True) for _ in range(rng.randint(3, 5))]
